@@ -196,8 +196,8 @@ func isContext(t types.Type) bool {
 
 // ctxExceptions: frozen, one reason each (DESIGN.md §5 C13).
 var ctxExceptions = map[string]string{
-	"(*mocrelay.subscriber).SendIfMatch→trySendCtx":           "non-blocking send (select with default): the context is irrelevant; covered by PUB-NB",
-	"(*sqlite.simpleSQLiteHandler).serveBulkInsert→WithTimeout":          "3-second flush of the pending batch after the handler's context ended (bounded by its own timeout)",
+	"(*mocrelay.subscriber).SendIfMatch→trySendCtx":                     "non-blocking send (select with default): the context is irrelevant; covered by PUB-NB",
+	"(*sqlite.simpleSQLiteHandler).serveBulkInsert→WithTimeout":         "3-second flush of the pending batch after the handler's context ended (bounded by its own timeout)",
 	"(*sqlite.simpleSQLiteHandler).serveBulkInsert→bulkInsertWithRetry": "the flush itself, under that 3-second context",
 }
 
